@@ -423,7 +423,11 @@ def check_relay(ck: Checker, rid: str, p):
             v = unwrap_await(n.ast.value)
             if isinstance(v, ast.Call) and fifo.get_sites(v, p.cscope, p.q):
                 cands.append(n)
-    ck.need(cands, f'{p.cons.key}: no dequeue bound to a name in the consumer loop')
+    if not cands:
+        # the iterator method is not the generator that dequeues: the relay was started by a plain method that hands the
+        # loop to someone else -- the producer then runs from the moment iter() is called, not from the first request
+        ck.ob(rid, p.cons, p.cons.node, False, f'{p.cons.qualname} does not dequeue from `{p.q}` in a loop of its own: it is not the consumer generator of the relay (a plain method that starts the producer and returns another generator pulls the source as soon as iter() is called, before anything was requested)')
+        return
     # the dequeue that starts an iteration (not the `e = q.get()` that fetches a forwarded exception to raise it)
     yielded = {(_yield_value(n).id if isinstance(_yield_value(n), ast.Name) else None) for n in ccfg.nodes if _yield_value(n) is not None}
     getn = next((n for n in cands if n.ast.targets[0].id in yielded), cands[0])
